@@ -760,6 +760,14 @@ pub async fn tcp_flow(client_port: u16, sc: TcpScript, links: Arc<std::sync::Mut
                         break;
                     }
                     Ok(Ok(n)) => seen2.lock().await.got.extend_from_slice(&buf[..n]),
+                    // the application had closed before the answer: the flow is gone when this target writes its answer, and a
+                    // large answer into the closed connection turns the end it then reads into a reset — still the end
+                    Ok(Err(_)) if early => {
+                        let mut s = seen2.lock().await;
+                        s.eof = true;
+                        s.eof_at = Some(std::time::Instant::now());
+                        break;
+                    }
                     _ => break,
                 }
             }
